@@ -54,9 +54,20 @@ pub fn spawn_client(fut: futures::future::LocalBoxFuture<'static, ()>) {
     vexec::spawn_local("client", fut);
 }
 
-#[cfg(not(feature = "l1"))]
+#[cfg(all(not(feature = "l1"), not(feature = "mt")))]
 pub fn spawn_client(_fut: futures::future::LocalBoxFuture<'static, ()>) {
-    panic!("Fork is only supported on the L1 engine");
+    panic!("Fork is not supported on the xrt engine");
+}
+
+#[cfg(all(feature = "mt", not(feature = "l1")))]
+thread_local! {
+    static FORKS: std::cell::RefCell<Vec<futures::future::LocalBoxFuture<'static, ()>>> = const { std::cell::RefCell::new(Vec::new()) };
+}
+
+/// L2: a forked client runs on the forking client's OS thread after that client has finished
+#[cfg(all(feature = "mt", not(feature = "l1")))]
+pub fn spawn_client(fut: futures::future::LocalBoxFuture<'static, ()>) {
+    FORKS.with(|f| f.borrow_mut().push(fut));
 }
 
 pub type Reaper = Vec<(u32, Box<dyn crate::dynh::DynWeak>)>;
@@ -159,6 +170,7 @@ pub fn run_l1(prog: &Program, cfg: RunCfg) -> Trace {
     if clients_outcome != Outcome::Until && clients_outcome != Outcome::StepCap {
         log::log(K::Phase("reap"));
         for (tag, w) in reaper.iter_mut() {
+            log::log(K::Effect { msg: 0, actor: u32::MAX, step: 0, what: "reap_begin", arg: *tag as u64, ok: true });
             let ok = w.try_stop().is_ok();
             log::log(K::Effect { msg: 0, actor: u32::MAX, step: 0, what: "reap_stop", arg: *tag as u64, ok });
         }
@@ -211,4 +223,188 @@ pub fn run_l1(prog: &Program, cfg: RunCfg) -> Trace {
 #[cfg(feature = "l1")]
 pub fn run(prog: &Program, cfg: RunCfg) -> Trace {
     run_l1(prog, cfg)
+}
+
+#[cfg(all(feature = "mt", not(feature = "l1")))]
+pub fn run(prog: &Program, cfg: RunCfg) -> Trace {
+    run_mt(prog, cfg)
+}
+
+/// L2: the same program on a real multi-threaded tokio runtime (hooks off).  Every client is an OS thread doing
+/// `Handle::block_on`, so clients race the runtime's workers with true parallelism.  Seeded micro-delays come from
+/// the programs themselves (yields, short sleeps).  A watchdog makes the whole scenario inconclusive.
+#[cfg(all(feature = "mt", not(feature = "l1")))]
+pub fn run_mt(prog: &Program, cfg: RunCfg) -> Trace {
+    use std::sync::atomic::AtomicBool;
+    use std::sync::{Barrier, Mutex, mpsc};
+    use std::time::{Duration, Instant};
+    log::reset();
+    actors::reset_globals();
+    decl_defaults(prog);
+    actors::set_faults(
+        prog.faults
+            .iter()
+            .map(|(tag, nth, panic)| actors::FaultPlan { tag: *tag, nth: *nth, kind: if *panic { actors::FaultKind::Panic } else { actors::FaultKind::Err } })
+            .collect(),
+    );
+    crate::rt::reset_clock();
+    let workers = [2usize, 4, 8][(cfg.seed % 3) as usize];
+    let rt = tokio::runtime::Builder::new_multi_thread().worker_threads(workers).enable_all().build().expect("tokio runtime");
+    let env = Env::new(prog.clone());
+    let n = prog.clients.len();
+    let nact = prog.actors.len();
+    log::log(K::Phase("setup"));
+    let mut txs = vec![];
+    let mut rxs = vec![];
+    for _ in 0..n {
+        let (tx, rx) = mpsc::channel::<(usize, Box<dyn crate::dynh::DynAddr>)>();
+        txs.push(tx);
+        rxs.push(Some(rx));
+    }
+    let barrier = Arc::new(Barrier::new(n + 1));
+    let reaper: Arc<Mutex<Reaper>> = Arc::new(Mutex::new(vec![]));
+    let done = Arc::new(std::sync::atomic::AtomicU32::new(0));
+    let started_flag = Arc::new(AtomicBool::new(false));
+    let mut threads = vec![];
+    for c in 0..n {
+        let prog = prog.clone();
+        let env = Arc::clone(&env);
+        let txs = txs.clone();
+        let rx = rxs[c].take().expect("rx");
+        let barrier = Arc::clone(&barrier);
+        let reaper = Arc::clone(&reaper);
+        let done = Arc::clone(&done);
+        let handle = rt.handle().clone();
+        threads.push(std::thread::spawn(move || {
+            let _g = handle.enter();
+            let mut table: Vec<Slot> = (0..2 * nact).map(|_| Slot::empty()).collect();
+            for (ai, d) in prog.actors.iter().enumerate() {
+                let owner = if (d.owner as usize) < n { d.owner as usize } else { 0 };
+                if !d.at_setup || owner != c {
+                    continue;
+                }
+                let sp = spawn_decl(d);
+                if let Some(a) = &sp.addr {
+                    reaper.lock().unwrap_or_else(|e| e.into_inner()).push((d.tag, a.downgrade()));
+                    for h in &d.holders {
+                        if *h as usize == c {
+                            table[ai] = Slot::mk(H::Addr(a.clone_box()), d.tag, *h);
+                        } else if let Some(tx) = txs.get(*h as usize) {
+                            let _ = tx.send((ai, a.clone_box()));
+                        }
+                    }
+                }
+                if let Some(o) = sp.owning {
+                    table[nact + ai] = Slot::mk(H::Owning(o), d.tag, c as u16);
+                }
+                drop(sp.addr);
+            }
+            drop(txs);
+            barrier.wait();
+            while let Ok((ai, a)) = rx.try_recv() {
+                let tag = prog.actors[ai].tag;
+                table[ai] = Slot::mk(H::Addr(a), tag, c as u16);
+            }
+            barrier.wait();
+            env.clients_started.fetch_add(1, Ordering::SeqCst);
+            handle.block_on(run_client(Arc::clone(&env), c as u16, prog.clients[c].clone(), table));
+            loop {
+                let next = FORKS.with(|f| f.borrow_mut().pop());
+                match next {
+                    Some(f) => handle.block_on(f),
+                    None => break,
+                }
+            }
+            done.fetch_add(1, Ordering::SeqCst);
+        }));
+    }
+    drop(txs);
+    barrier.wait();
+    barrier.wait();
+    started_flag.store(true, Ordering::SeqCst);
+    log::log(K::Phase("clients"));
+    // monitor: reap when nothing happens although clients are pending; watchdog when even that does not help
+    let t0 = Instant::now();
+    let progress = || log::CLIENT_EVENTS.load(Ordering::Relaxed);
+    let mut last_len = progress();
+    let mut last_change = Instant::now();
+    let mut reaped = false;
+    let mut clients_outcome = Outcome::Until;
+    loop {
+        if done.load(Ordering::SeqCst) as usize >= n {
+            break;
+        }
+        std::thread::sleep(Duration::from_micros(300));
+        let l = progress();
+        if l != last_len {
+            last_len = l;
+            last_change = Instant::now();
+        }
+        if !reaped && last_change.elapsed() > Duration::from_millis(300) {
+            reaped = true;
+            log::log(K::Phase("reap"));
+            let _g = rt.enter();
+            for (tag, w) in reaper.lock().unwrap_or_else(|e| e.into_inner()).iter_mut() {
+                log::log(K::Effect { msg: 0, actor: u32::MAX, step: 0, what: "reap_begin", arg: *tag as u64, ok: true });
+                let ok = w.try_stop().is_ok();
+                log::log(K::Effect { msg: 0, actor: u32::MAX, step: 0, what: "reap_stop", arg: *tag as u64, ok });
+            }
+            last_change = Instant::now();
+        }
+        if (reaped && last_change.elapsed() > Duration::from_secs(5)) || t0.elapsed() > Duration::from_secs(30) {
+            clients_outcome = Outcome::StepCap; // watchdog: inconclusive
+            break;
+        }
+    }
+    log::log(K::Phase(if clients_outcome == Outcome::Until { "clients_done" } else { "step_cap" }));
+    if clients_outcome == Outcome::Until {
+        for t in threads {
+            let _ = t.join();
+        }
+    }
+    reaper.lock().unwrap_or_else(|e| e.into_inner()).clear();
+    let quiet = |ms: u64, max_ms: u64| {
+        let t = Instant::now();
+        let mut last = log::NONTICK_EVENTS.load(Ordering::Relaxed);
+        let mut since = Instant::now();
+        while t.elapsed() < Duration::from_millis(max_ms) {
+            std::thread::sleep(Duration::from_micros(500));
+            let l = log::NONTICK_EVENTS.load(Ordering::Relaxed);
+            if l != last {
+                last = l;
+                since = Instant::now();
+            } else if since.elapsed() > Duration::from_millis(ms) {
+                break;
+            }
+        }
+    };
+    quiet(15, 3000);
+    log::log(K::Phase("settled"));
+    rt.block_on(cleanup(vec![]));
+    quiet(5, 1000);
+    log::log(K::Phase("end"));
+    let clients_started = env.clients_started.load(Ordering::SeqCst);
+    let clients_done = env.clients_done.load(Ordering::SeqCst);
+    let cb_kinds = prog.actors.iter().chain(prog.defaults.iter()).map(|d| (d.tag, actors::cb_kinds(d.tag))).collect();
+    drop(env);
+    rt.shutdown_timeout(Duration::from_millis(200));
+    let events = log::take();
+    if clients_outcome != Outcome::Until {
+        // client threads may be blocked for good: the process cannot safely run further scenarios
+        eprintln!("L2 watchdog fired: leaving the shard");
+    }
+    Trace {
+        events,
+        clients_outcome,
+        settle_outcome: Outcome::Quiescent,
+        cleanup_outcome: Outcome::Quiescent,
+        census: vec![],
+        steps: 0,
+        decisions: 0,
+        multi_choice: 0,
+        horizon_units: 0,
+        clients_started,
+        clients_done,
+        cb_kinds,
+    }
 }
